@@ -11,6 +11,11 @@ use sccache::verif::{CacheRead, CacheWrite};
 use std::io::{Cursor, Read, Write};
 use verif_harness::*;
 
+fn blake3_file(p: &std::path::Path) -> String {
+    let mut h = blake3::Hasher::new(); let mut f = std::fs::File::open(p).unwrap(); let mut buf = vec![0u8; 1 << 20];
+    loop { let n = f.read(&mut buf).unwrap(); if n == 0 { break; } h.update(&buf[..n]); }
+    h.finalize().to_hex().to_string()
+}
 fn zip_level(bytes: &[u8], name: &str) -> Option<(Option<u32>, Vec<u8>)> {
     let mut z = zip::ZipArchive::new(Cursor::new(bytes.to_vec())).ok()?;
     let mut f = z.by_name(name).ok()?;
@@ -124,10 +129,61 @@ fn main() {
                     }
                 }
             }
+            // ---- (1b) the server's own store and restore paths on *files*: CacheWrite::from_objects -> finish -> CacheRead::from ->
+            //      extract_objects, over sizes from empty to beyond 128 MiB (2^27, the default zstd decoder window limit) and three kinds of content
+            let rt = tokio::runtime::Builder::new_multi_thread().worker_threads(2).enable_all().build().unwrap();
+            let mut file_rt = 0u64; let mut file_sizes: Vec<u64> = vec![];
+            {
+                use sccache::verif::FileObjectSource;
+                use std::os::unix::fs::PermissionsExt;
+                let big_sizes: Vec<u64> = std::env::var("VERIF_ENTRY_FILE_SIZES").ok().map(|v| v.split(',').filter_map(|x| x.parse().ok()).collect())
+                    .unwrap_or_else(|| vec![0, 1, 4095, (1 << 20) + 7, (32 << 20) + 11, (136 << 20) + 3]);
+                let tmp = tempfile::tempdir().unwrap();
+                for (ci, &size) in big_sizes.iter().enumerate() {
+                    let kind = (ci as u64 + rng.below(3)) % 3;
+                    let src = tmp.path().join("src.o"); let dst = tmp.path().join("dst.o");
+                    {
+                        let mut f = std::io::BufWriter::new(std::fs::File::create(&src).unwrap());
+                        let mut x = rng.next(); let mut left = size; let block: Vec<u8> = (0..65536u32).map(|i| (i % 251) as u8).collect();
+                        while left > 0 {
+                            let n = left.min(65536) as usize;
+                            match kind {
+                                0 => f.write_all(&vec![0u8; n]).unwrap(),
+                                1 => f.write_all(&block[..n]).unwrap(),
+                                _ => { let b: Vec<u8> = (0..n).map(|_| { x ^= x << 13; x ^= x >> 7; x ^= x << 17; (x >> 24) as u8 }).collect(); f.write_all(&b).unwrap() }
+                            }
+                            left -= n as u64;
+                        }
+                    }
+                    let mode = *rng.pick(&[0o644u32, 0o755, 0o600]);
+                    std::fs::set_permissions(&src, std::fs::Permissions::from_mode(mode)).unwrap();
+                    let want = blake3_file(&src);
+                    let objs = vec![FileObjectSource { key: "obj".into(), path: src.clone(), optional: false }, FileObjectSource { key: "dwo".into(), path: tmp.path().join("absent.dwo"), optional: true }];
+                    let desc = format!("file of {} bytes ({}), mode {:o}", size, ["zeros", "periodic", "pseudo-random"][kind as usize], mode);
+                    let packed = rt.block_on(CacheWrite::from_objects(objs, rt.handle())).and_then(|w| w.finish());
+                    file_rt += 1; file_sizes.push(size);
+                    match packed {
+                        Err(e) => fails.push(fail_json("file_roundtrip_failed", &format!("{}: packing failed: {:#}", desc, e), &[desc.clone()], "")),
+                        Ok(bytes) => {
+                            let _ = std::fs::remove_file(&dst);
+                            let back = vec![FileObjectSource { key: "obj".into(), path: dst.clone(), optional: false }, FileObjectSource { key: "dwo".into(), path: tmp.path().join("back.dwo"), optional: true }];
+                            let r = CacheRead::from(Cursor::new(bytes)).and_then(|r| rt.block_on(r.extract_objects(back, rt.handle())));
+                            match r {
+                                Err(e) => fails.push(fail_json("file_roundtrip_failed", &format!("{}: the intact entry cannot be restored: {:#}", desc, e), &[desc.clone()], "")),
+                                Ok(_) => {
+                                    let got = blake3_file(&dst); let gm = std::fs::metadata(&dst).map(|m| m.permissions().mode() & 0o777).unwrap_or(0);
+                                    if got != want { fails.push(fail_json("file_roundtrip_failed", &format!("{}: restored contents differ", desc), &[desc.clone()], "")); }
+                                    else if gm != mode { fails.push(fail_json("mode_changed", &format!("{}: restored with mode {:o}", desc, gm), &[desc.clone()], "")); }
+                                    if tmp.path().join("back.dwo").exists() { fails.push(fail_json("file_roundtrip_failed", &format!("{}: an output that was never stored appeared", desc), &[desc.clone()], "")); }
+                                }
+                            }
+                        }
+                    }
+                }
+            }
             // ---- (2)+(3) exhaustive truncations and substitutions on small entries
             let (mut cases, mut fail, mut same, mut diff, mut incons) = (0u64, 0u64, 0u64, 0u64, 0u64);
             let (mut comp_cases, mut comp_fail, mut comp_same, mut comp_diff) = (0u64, 0u64, 0u64, 0u64); let mut comp_reported = std::collections::HashSet::new();
-            let rt = tokio::runtime::Builder::new_multi_thread().worker_threads(2).enable_all().build().unwrap();
             let comp_tmp = tempfile::tempdir().unwrap(); let comp_dir = comp_tmp.path().join("x");
             for e in 0..nf {
                 let (members, good) = gen_entry(&mut rng, 40, e == nf - 1);
@@ -198,8 +254,8 @@ fn main() {
                     }
                 }
             }
-            std::fs::write(&a[7], format!("{{\"restore_cases\":{},\"restore_failed\":{},\"restore_identical\":{},\"restore_different\":{},\"writer_entries\":{},\"large_entries\":{},\"roundtrip_members\":{},\"fault_entries\":{},\"fault_cases\":{},\"cacheread_fail\":{},\"cacheread_identical\":{},\"cacheread_different\":{},\"inconsistent_with_zip_plus_zstd\":{},\"monitor_failures\":[{}],\"samples\":[{}]}}",
-                comp_cases, comp_fail, comp_same, comp_diff, nw, big, rt_members, nf, cases, fail, same, diff, incons, fails.join(","), samples.iter().map(|s| jstr(s)).collect::<Vec<_>>().join(","))).unwrap();
+            std::fs::write(&a[7], format!("{{\"file_roundtrips\":{},\"file_roundtrip_sizes\":{:?},\"restore_cases\":{},\"restore_failed\":{},\"restore_identical\":{},\"restore_different\":{},\"writer_entries\":{},\"large_entries\":{},\"roundtrip_members\":{},\"fault_entries\":{},\"fault_cases\":{},\"cacheread_fail\":{},\"cacheread_identical\":{},\"cacheread_different\":{},\"inconsistent_with_zip_plus_zstd\":{},\"monitor_failures\":[{}],\"samples\":[{}]}}",
+                file_rt, file_sizes, comp_cases, comp_fail, comp_same, comp_diff, nw, big, rt_members, nf, cases, fail, same, diff, incons, fails.join(","), samples.iter().map(|s| jstr(s)).collect::<Vec<_>>().join(","))).unwrap();
         }
         Some("cmp") => {
             let r = std::fs::read_to_string(&a[2]).unwrap(); let m = std::fs::read_to_string(&a[3]).unwrap();
